@@ -9,7 +9,8 @@
    or forged, with or without a (valid or invalid) Echo option.  W is replay_window_size (every
    integer; the code keeps 64 bits, so sizes above 64 act like 64), b12 is rfc8613_b_1_2. *)
 From LibcoapV Require Import Base.Tactics Oscore.Replay Oscore.ReplayProofs Oscore.ReplayRefuted
-  Oscore.SenderSeq Oscore.SenderSeqProofs.
+  Oscore.SenderSeq Oscore.SenderSeqProofs Oscore.EndToEnd.
+From Coq Require Import Sorted.
 Local Open Scope Z_scope.
 
 (* ---- recipient: the repaired code ---- *)
@@ -84,6 +85,38 @@ Theorem C15_piv_unique : forall freq start ops,
   NoDup (ss_pivs (ss_boot freq start) ops).
 Proof. exact ss_piv_unique. Qed.
 Print Assumptions C15_piv_unique.
+
+(* stronger: they are strictly increasing, also across restarts, and each is a number a
+   recipient accepts (below OSCORE_SEQ_MAX) *)
+Theorem C15_pivs_increasing : forall freq start ops,
+  0 <= start <= 2 ^ 40 -> ss_freq_ok freq -> Forall ss_op_ok ops ->
+  Z.of_nat (length ops) < 2 ^ 63 ->
+  StronglySorted Z.lt (ss_pivs (ss_boot freq start) ops) /\
+  Forall (fun p => 0 <= p < ss_seq_max) (ss_pivs (ss_boot freq start) ops).
+Proof. exact ss_pivs_increasing. Qed.
+Print Assumptions C15_pivs_increasing.
+
+(* ---- sender and recipient together ---- *)
+
+(* the property in its own terms: a protected request (a position in what the sender put on
+   the wire), delivered in any order, any number of times, among forgeries with any claimed
+   Partial IV, reaches the handler at most once *)
+Theorem C15_message_at_most_once : forall pivs W b12 sched,
+  Forall (e2e_valid (length pivs)) sched ->
+  NoDup (e2e_accepted_idx sched
+           (fst (rp_run rp_fixed W b12 rp_init (map (e2e_msg pivs) sched)))).
+Proof. exact e2e_message_at_most_once. Qed.
+Print Assumptions C15_message_at_most_once.
+
+(* and the halves fit: everything a sender produced over any protect / crash-restart sequence,
+   delivered once each in the order of sending, is accepted *)
+Theorem C15_in_order_all_accepted : forall freq start ops W b12,
+  0 <= start <= 2 ^ 40 -> ss_freq_ok freq -> Forall ss_op_ok ops ->
+  Z.of_nat (length ops) < 2 ^ 63 ->
+  let pivs := ss_pivs (ss_boot freq start) ops in
+  fst (rp_run rp_fixed W b12 rp_init (e2e_in_order pivs)) = map (fun _ => RpAccept) pivs.
+Proof. exact e2e_in_order_all_accepted. Qed.
+Print Assumptions C15_in_order_all_accepted.
 
 (* ---- the code as found (/repo 74963ff): refuted, minimal histories ---- *)
 
